@@ -145,11 +145,17 @@ class ToNNX(Module):
       # rename default to params
       if 'params' not in _rngs and 'default' in _rngs:
         _rngs['params'] = _rngs.pop('default')
-      out, variables = self.module.init_with_output(_rngs, *args, method=method, **kwargs)
+      # `mutable` belongs to apply: during init every collection is mutable
+      # and the variables returned by init already contain the updates
+      init_kwargs = {k: v for k, v in kwargs.items() if k != 'mutable'}
+      out, variables = self.module.init_with_output(
+        _rngs, *args, method=method, **init_kwargs
+      )
 
       nnx_attrs = bv.linen_vars_to_nnx_attrs(variables)
       for attr_name, value in nnx_attrs.items():
         setattr(self, attr_name, value)
+      return out
 
     else:
       nnx_attrs = {k: v for k, v in vars(self).items()
